@@ -203,14 +203,17 @@ struct Lin_Script : public Script {
   Lin_Script() { n = rnd(1, G().maxdim); reset(); }
   const char* domain() const { return "lin"; }
   void reset() { for (int i = 0; i < 3; ++i) { E[i] = Linear_Expression(); E[i].set_space_dimension(n); K[i] = Coefficient(wide()); } }
-  static long wide() { return coin(40) ? rc() : rc_wide(); }
+  static long wide() { return coin(25) ? rc() : rc_wide(); }
   static long wide_nz() { for (;;) { long v = wide(); if (v) return v; } }
 
   void step(Step_Context& ctx, Items& out) {
     int a = rnd(0, 2), b = rnd(0, 2), c = rnd(0, 2); std::string sa = std::to_string(a), sb = std::to_string(b), sc = std::to_string(c);
     int op = rnd(0, 41);
+    // SPARSE Linear_Expression `e -= e` / `e += e` / add_mul_assign(e, k, e) is a heap-use-after-free in Sparse_Row::linear_combine
+    // in EVERY configuration (an aliasing defect, property C13, reported by the engines that own it): operands are kept distinct here.
+    if ((op == 3 || op == 4 || op == 12 || op == 13 || op == 16 || op == 17) && b == a && !hx::opt().geti("linalias", 0)) { b = (a + 1) % 3; sb = std::to_string(b); }
     switch (op) {
-    case 0: case 1: case 2: { std::vector<long> v = raw_vec(n, 25); for (int i = 0; i < n; ++i) if (v[i] && coin(25)) v[i] = rc_wide(); long k = wide(); ctx.begin("le_set", "E" + sa + "=" + show(v, k)); E[a] = le(v, k, n); out.push_back(val("E", canon(E[a], n))); break; }
+    case 0: case 1: case 2: { std::vector<long> v = raw_vec(n, 25); for (int i = 0; i < n; ++i) if (v[i] && coin(55)) v[i] = rc_wide(); long k = wide(); ctx.begin("le_set", "E" + sa + "=" + show(v, k)); E[a] = le(v, k, n); out.push_back(val("E", canon(E[a], n))); break; }
     case 3: ctx.begin("le_add_assign", "E" + sa + "+=E" + sb); E[a] += E[b]; out.push_back(val("E", canon(E[a], n))); break;
     case 4: ctx.begin("le_sub_assign", "E" + sa + "-=E" + sb); E[a] -= E[b]; out.push_back(val("E", canon(E[a], n))); break;
     case 5: { long k = wide(); ctx.begin("le_mul_assign", "E" + sa + "*=" + std::to_string(k)); E[a] *= Coefficient(k); out.push_back(val("E", canon(E[a], n))); break; }
@@ -263,7 +266,10 @@ struct Lin_Script : public Script {
     case 37: { unsigned e = rnd(0, G().bits + 1); ctx.begin("k_mul_2exp", "mul_2exp_assign(K" + sa + ",K" + sb + "," + std::to_string(e) + ")"); mul_2exp_assign(K[a], K[b], e); out.push_back(val("K", toZ(K[a]))); break; }
     case 38: { unsigned e = rnd(0, G().bits + 1); ctx.begin("k_div_2exp", "div_2exp_assign(K" + sa + ",K" + sb + "," + std::to_string(e) + ") [exact cases only]");
       ZZ m = 1; m <<= e; if (toZ(K[b]) % m != 0) { out.push_back(val("inexact_skipped", true)); break; } div_2exp_assign(K[a], K[b], e); out.push_back(val("K", toZ(K[a]))); break; }
-    case 39: { ctx.begin("k_sqrt", "sqrt_assign(K" + sa + ",K" + sb + ") [perfect squares only]"); ZZ v = toZ(K[b]); if (v < 0 || !mpz_perfect_square_p(v.get_mpz_t())) { out.push_back(val("inexact_skipped", true)); break; } sqrt_assign(K[a], K[b]); out.push_back(val("K", toZ(K[a]))); break; }
+    case 39: { if (coin(60)) { long r = rl(0, isqrt_l(G().lim)); hx::tr(" | K" + sb + "=" + std::to_string(r) + "^2"); K[b] = Coefficient(r * r); }
+      ZZ v = toZ(K[b]); ZZ quarter = ZZ(G().lim) / 2 + 1;   // 2^(bits-2)
+      // the operand class is part of the op name: isqrt_rem() overflows its signed intermediate exactly for operands >= 2^(bits-2)
+      ctx.begin(v >= quarter ? "k_sqrt_operand_ge_quarter_range" : "k_sqrt", "sqrt_assign(K" + sa + ",K" + sb + ") [perfect squares only]"); if (v < 0 || !mpz_perfect_square_p(v.get_mpz_t())) { out.push_back(val("inexact_skipped", true)); break; } sqrt_assign(K[a], K[b]); out.push_back(val("K", toZ(K[a]))); break; }
     case 40: { ctx.begin("k_incdec_cmp", "++K" + sa + ";--K" + sb + ";cmp;sgn"); ++K[a]; --K[b]; out.push_back(val("Ka", toZ(K[a]))); out.push_back(val("Kb", toZ(K[b])));
       int cm = cmp(K[a], K[b]); out.push_back(val("cmp", ZZ(cm < 0 ? -1 : cm > 0 ? 1 : 0))); out.push_back(val("sgn", ZZ((int) sgn(K[c])))); out.push_back(val("lt", K[a] < K[c])); break; }
     default: { ctx.begin("k_from_expr", "K" + sa + "=E" + sb + ".coefficient*inhomogeneous_term"); int v = rnd(0, n - 1); K[a] = E[b].coefficient(Variable(v)) * E[b].inhomogeneous_term(); out.push_back(val("K", toZ(K[a]))); break; }
